@@ -788,7 +788,7 @@ func ruleC07_6(c *Ctx, r *Rep) {
 		// form (a): result != e.Not
 		for _, b := range fn.Blocks {
 			for _, in := range b.Instrs {
-				if bo, isB := in.(*ssa.BinOp); isB && (bo.Op == token.NEQ || bo.Op == token.XOR) && (sources(bo.Y)["field:Not"] || sources(bo.X)["field:Not"]) && (sources(bo.X)["call:Evaluate"] || sources(bo.Y)["call:Evaluate"]) {
+				if bo, isB := in.(*ssa.BinOp); isB && (bo.Op == token.NEQ || bo.Op == token.XOR) && (negationFlag(bo.Y, 0) || negationFlag(bo.X, 0)) && (sources(bo.X)["call:Evaluate"] || sources(bo.Y)["call:Evaluate"]) {
 					for _, ret := range returnsOf(fn) {
 						if dependsOnValue(retResult(ret, 0), bo) {
 							ok = true
@@ -1452,6 +1452,55 @@ func ruleC08_6(c *Ctx, r *Rep) {
 			}
 		}
 	}
+	// a negated term is printed with its negation: on every path on which e.Not holds, a successful return is
+	// preceded by the write of "NOT " (or "-"). Folding the negation into the printed comparison instead
+	// (`NOT a = "v"` as `a != "v"`) changes the meaning: both comparisons are false when the attribute is absent.
+	var negWrites []ssa.Instruction
+	for _, b := range fn.Blocks {
+		for _, in := range b.Instrs {
+			ci, ok := in.(ssa.CallInstruction)
+			if !ok || !ci.Common().IsInvoke() {
+				continue
+			}
+			switch ci.Common().Method.Name() {
+			case "WriteString":
+				if sv, isS := constString(ci.Common().Args[0]); isS && (strings.TrimSpace(sv) == "NOT" || strings.TrimSpace(sv) == "-") {
+					negWrites = append(negWrites, in)
+				}
+			case "WriteRune":
+				if v, isC := constInt(ci.Common().Args[0]); isC && rune(v) == '-' {
+					negWrites = append(negWrites, in)
+				}
+			}
+		}
+	}
+	negOK := len(negWrites) > 0
+	var negPos token.Pos = fn.Pos()
+	for _, ret := range returnsOf(fn) {
+		if !mayReturnNilError(ret) {
+			continue
+		}
+		underNot := false
+		for _, cd := range edgeConds(ret.Block()) {
+			nc := normCond(cd.V, cd.Pol)
+			if _, isCmp := nc.V.(*ssa.BinOp); !isCmp && nc.Pol && sources(nc.V)["field:Not"] {
+				underNot = true
+			}
+		}
+		if !underNot {
+			continue
+		}
+		dom := false
+		for _, w := range negWrites {
+			if instrDominates(w, ret) {
+				dom = true
+			}
+		}
+		if !dom {
+			negOK, negPos = false, ret.Pos()
+		}
+	}
+	r.Check("C08.6", "C08.6:negation-printed", negPos, negOK, "a negated term is printed with its NOT", "a negated term can be printed without \"NOT \" (the negation folded into the comparison or dropped): `NOT attributes.x = \"v\"` and `attributes.x != \"v\"` differ when the attribute is absent, so the printed filter is not equivalent")
 	r.Check("C08.6", "C08.6:sub-condition-parenthesised", sub.Pos(), open && closed, "\"(\" precedes and \")\" follows every printed sub-condition",
 		"a sub-condition can be printed without its parentheses: e.g. NOT (NOT a) prints as `NOT NOT a`, which the grammar (one NOT per term) rejects — the printed filter does not parse back")
 }
@@ -1472,4 +1521,41 @@ func returnsNilErrorOrPropagates(ret *ssa.Return, sub *ssa.Call) bool {
 		})
 	}
 	return true // an error return
+}
+
+// negationFlag: v is the Not field of a Term, or a parity of such fields (x != y, phi of flags, also loop-carried) —
+// not a disjunction or another boolean combination of them (`not || inner.Not` turns NOT (NOT p) into NOT p).
+func negationFlag(v ssa.Value, depth int) bool {
+	return negationFlagV(v, map[ssa.Value]bool{})
+}
+
+func negationFlagV(v ssa.Value, visiting map[ssa.Value]bool) bool {
+	v = resolve(v)
+	if visiting[v] {
+		return true // a loop-carried flag: judged by its other edges
+	}
+	if len(visiting) > 64 {
+		return false
+	}
+	visiting[v] = true
+	switch x := v.(type) {
+	case *ssa.UnOp:
+		if x.Op == token.MUL {
+			if fa, ok := x.X.(*ssa.FieldAddr); ok {
+				return fieldName(fa.X.Type(), fa.Field) == "Not"
+			}
+		}
+	case *ssa.Phi:
+		for _, e := range x.Edges {
+			if !negationFlagV(e, visiting) {
+				return false
+			}
+		}
+		return len(x.Edges) > 0
+	case *ssa.BinOp:
+		if x.Op == token.NEQ || x.Op == token.XOR {
+			return negationFlagV(x.X, visiting) && negationFlagV(x.Y, visiting)
+		}
+	}
+	return false
 }
